@@ -441,7 +441,7 @@ pub proof fn lemma_ib_zext_same_sign(i: Interval, ww: nat)
     }
 }
 
-/// [0, 2^w - 1] at width ww: what zero_extend starts from when the bounds have different signs
+/// [0, 2^w - 1] at width ww: what zero_extend starts from when the bounds have different signs (stride 1)
 pub open spec fn ib_zext_full(i: Interval, ww: nat, stride: u64) -> Interval {
     Interval { start: bv(ww, 0), end: bv(ww, (p2(i.w()) - 1) as nat), stride: stride }
 }
@@ -453,16 +453,15 @@ pub proof fn lemma_ib_zext_mixed(i: Interval, ww: nat)
         let m = p2(k) as u64;
         let s = i.start.s();
         let rem = (s % (m as int)) as u64;
-        let full = ib_zext_full(i, ww, m);
         let full1 = ib_zext_full(i, ww, 1);
         &&& i.stride != 0 && 0 <= k < 64 && 0 < p2(k) <= i.stride && m == p2(k)
         &&& (i.stride % 2 == 1 ==> m == 1)
         &&& (1i128 << (k as u32)) == p2(k)
         &&& (i.start.u@ < p2(128) ==> i.w() <= 128)
         &&& ib_idiom_facts(s, m as int) && 0 <= s % (m as int) < m
-        &&& full.start.wf() && full.end.wf() && full.start.s() == 0 && full.end.s() == p2(i.w()) - 1
-        &&& in_class(full, m, rem, bv(ww, i.start.u@))
-        &&& forall|x: Bitvector| i.gamma(x) ==> #[trigger] in_class(full, m, rem, bv(ww, x.u@))
+        &&& full1.start.wf() && full1.end.wf() && full1.start.s() == 0 && full1.end.s() == p2(i.w()) - 1
+        &&& in_class(full1, m, rem, bv(ww, i.start.u@))
+        &&& forall|x: Bitvector| i.gamma(x) ==> #[trigger] in_class(full1, m, rem, bv(ww, x.u@))
         &&& full1.inv() && forall|x: Bitvector| i.gamma(x) ==> #[trigger] full1.gamma(bv(ww, x.u@))
     }),
 {
@@ -478,7 +477,6 @@ pub proof fn lemma_ib_zext_mixed(i: Interval, ww: nat)
     let mi = m as int;
     let st = i.stride as int;
     let rem = (s % mi) as u64;
-    let full = ib_zext_full(i, ww, m);
     let full1 = ib_zext_full(i, ww, 1);
     lemma_ib_rust_rem(s, mi);
     // widths
@@ -490,7 +488,7 @@ pub proof fn lemma_ib_zext_mixed(i: Interval, ww: nat)
     lemma_ib_divisor_le(st, e - s);
     lemma_ib_p2_divides(k, w, st);
     assert(full1.inv());
-    assert forall|x: Bitvector| i.gamma(x) implies #[trigger] in_class(full, m, rem, bv(ww, x.u@)) && full1.gamma(bv(ww, x.u@)) by {
+    assert forall|x: Bitvector| i.gamma(x) implies #[trigger] in_class(full1, m, rem, bv(ww, x.u@)) && full1.gamma(bv(ww, x.u@)) by {
         lemma_sval(w, x.u@); lemma_sval(ww, x.u@);
         let c: int = if x.s() < 0 { 1 } else { 0 };
         assert(x.u@ - rem == (x.s() - s) + c * p2(w) + (s - s % mi));
